@@ -26,7 +26,7 @@ var (
 	ScalarsNulls  = []any{0.0, 1.0, 2.0, "a", "b", "", true, false, nil}
 	ScalarsNum    = []any{0.0, 1.0, 2.0, 3.0, 1.5, -1.0}
 	KeysSmall     = []string{"a", "b", "c", "d"}
-	KeysHostile   = []string{"a", "b", "", "a/b", "m~n", "~0", "~1", "~01", "é", " ", "x y", "1a", "-x", "a\"b", "\\", "<&>", "a/b/c", "~~", "x/y~z/~0~1", "//"}
+	KeysHostile   = []string{"a", "b", "", "a/b", "m~n", "~0", "~1", "~01", "é", " ", "x y", "1a", "-x", "a\"b", "\\", "<&>", "a/b/c", "~~", "x/y~z/~0~1", "//", "a b", "b a", "a 1"}
 	KeysNumberish = []string{"0", "1", "-1", "01", "-", "+1", "1e3", "12"}
 )
 
